@@ -422,4 +422,45 @@ example : receivedOf (Sys.run plainCrypto (sysInit "aa" "bb") demoActs).b.log = 
     okVals (Sys.run plainCrypto (sysInit "aa" "bb") demoActs).b.obs.fired = [[7], [8]] ∧
     (Sys.run plainCrypto (sysInit "aa" "bb") demoActs).sentA = [[7], [8], [9], [10]] := by decide
 
+
+/-- **buffers_independent.**  The reorder buffer of the numbered application phases and the one of the
+    `dilate-N` messages never influence each other: inserting a `dilate-N` input (given directly or as
+    `got_message("dilate-N", …)`, any seqnum, any body) anywhere into any Boss trace changes neither the
+    `W.received` calls (what the application gets), nor the `S.send` calls, nor `_rx_phases` /
+    `_next_rx_phase`; and inserting a numbered application phase anywhere changes neither the
+    `D.received_dilate` calls nor `_rx_dilate_seqnums` / `_next_rx_dilate_seqnum`. -/
+theorem buffers_independent (t1 t2 : List BIn) (x : BIn) :
+    (isDilateIn x = true →
+      wRecvs (bossRun bossInit [] (t1 ++ x :: t2)).2 = wRecvs (bossRun bossInit [] (t1 ++ t2)).2 ∧
+      sSends (bossRun bossInit [] (t1 ++ x :: t2)).2 = sSends (bossRun bossInit [] (t1 ++ t2)).2 ∧
+      (bossRun bossInit [] (t1 ++ x :: t2)).1.rx = (bossRun bossInit [] (t1 ++ t2)).1.rx) ∧
+    (isPhaseIn x = true →
+      dRecvs (bossRun bossInit [] (t1 ++ x :: t2)).2 = dRecvs (bossRun bossInit [] (t1 ++ t2)).2 ∧
+      (bossRun bossInit [] (t1 ++ x :: t2)).1.drx = (bossRun bossInit [] (t1 ++ t2)).1.drx) := by
+  constructor
+  · intro hx
+    rw [bossRun_append, bossRun_append]
+    simp only [bossRun]
+    have hs := bossIn_dilate_app (bossRun bossInit [] t1).1 x hx
+    have := bossRun_app_congr t2 _ (bossRun bossInit [] t1).1
+      ((bossRun bossInit [] t1).2 ++ (bossIn (bossRun bossInit [] t1).1 x).2.1)
+      (bossRun bossInit [] t1).2 hs.1 ⟨by simp [hs.2.1], by simp [hs.2.2]⟩
+    exact ⟨this.2.1, this.2.2, this.1.2.2⟩
+  · intro hx
+    rw [bossRun_append, bossRun_append]
+    simp only [bossRun]
+    have hs := bossIn_phase_dil (bossRun bossInit [] t1).1 x hx
+    have := bossRun_dil_congr t2 _ (bossRun bossInit [] t1).1
+      ((bossRun bossInit [] t1).2 ++ (bossIn (bossRun bossInit [] t1).1 x).2.1)
+      (bossRun bossInit [] t1).2 hs.1 (by simp [hs.2])
+    exact ⟨this.2, this.1.2.2⟩
+
+/-- the order of the seeded scenario: dilate-1, 0, 1, 2, dilate-0 — the application gets 0, 1, 2 and the
+    Dilator gets dilate-0, dilate-1 -/
+example :
+    let r := bossRun bossInit [] [.gotCode, .happy, .gotMessage "dilate-1" [91], .gotMessage "0" [10],
+      .gotMessage "1" [11], .gotMessage "2" [12], .gotMessage "dilate-0" [90]]
+    wRecvs r.2 = [[10], [11], [12]] ∧ dRecvs r.2 = [[90], [91]] ∧ isDilateIn (.gotMessage "dilate-1" [91]) = true ∧
+      isPhaseIn (.gotMessage "1" [11]) = true := by decide
+
 end WV.Props.C03
